@@ -1,6 +1,8 @@
 CONSTANTS
   Tier = "quick"
   Seed = 1
+  FamLo = 1
+  FamHi = 0
 INIT OInit
 NEXT ONext
 INVARIANTS PrintCanonical DefinedHasValue
